@@ -16,6 +16,8 @@ var vhC08Ops = []vhOp{
 	{"==", 3}, {"!=", 3}, {"<", 3}, {">", 3}, {"<=", 3}, {">=", 3},
 	{"+", 4}, {"-", 4}, {"~", 4},
 	{"*", 5}, {"/", 5}, {"%", 5},
+	// the word operators of the comparison level and the power operator (used when OPS > 14)
+	{"in", 3}, {"not in", 3}, {"starts with", 3}, {"ends with", 3}, {"matches", 3}, {"^", 6},
 }
 
 // vhC08Full: fully parenthesised spelling by precedence climbing (left associative).
@@ -51,7 +53,7 @@ func VH_C08_Paren() {
 	var ops []vhOp
 	flat := "a"
 	for i := 0; i < k; i++ {
-		op := vhC08Ops[symChoice(len(vhC08Ops))]
+		op := vhC08Ops[symChoice(symParam("OPS", 14))]
 		ops = append(ops, op)
 		flat += " " + op.sym + " " + names[i+1]
 	}
